@@ -91,6 +91,30 @@ def rule_flattening_keeps_operator(ctx):
         raise AnalysisError("fewer than 2 operand-flattening sites in the pattern visitor (%d): anchors lost" % n)
 
 
+def rule_observation_brackets(ctx):
+    """An observation prints its comparison expression in square brackets -- unless the operand is itself an observation
+    expression (simple or compound: they bring their own brackets).  The class test that decides covers both kinds, or a
+    compound operand is bracketed twice: `[[a:b = 1] AND [c:d = 2]]`, which is not a pattern."""
+    run = ctx.run
+    prog = ctx.prog
+    R = "C10.printer-complete"
+    cls = prog.cls("stix2.patterns::ObservationExpression")
+    m = cls.methods.get("__str__")
+    if m is None:
+        raise AnalysisError("anchor missing: ObservationExpression.__str__")
+    kinds = None
+    for t in body_walk(m.node):
+        if isinstance(t, ast.Call) and norm(t.func) == "isinstance" and len(t.args) == 2 and "operand" in norm(t.args[0]):
+            kinds = sorted(norm(e) for e in (t.args[1].elts if isinstance(t.args[1], ast.Tuple) else [t.args[1]]))
+    want = ["ObservationExpression", "_CompoundObservationExpression"]
+    has_brackets = any(isinstance(c, ast.Constant) and isinstance(c.value, str) and c.value.startswith("[") and c.value.endswith("]")
+                       for c in body_walk(m.node))
+    run.check(kinds == want and has_brackets, R, key(m.module.relpath, m.qualname, "brackets-exactly-around-comparisons"),
+              "the operands that are printed without additional brackets are not exactly the observation expressions (simple and "
+              "compound): a compound operand would be bracketed twice, or a comparison not at all", file=m.module.relpath,
+              line=m.node.lineno, function=m.qualname, expected=want, found=kinds)
+
+
 def rule_nodes_built_by_constructors(ctx, rule_id="C10.operator-table"):
     """_BooleanExpression.__init__ derives state from its operands (root_types: which object types can satisfy the expression)
     and refuses an AND no single object type can satisfy.  Appending to `.operands` of an existing node from outside skips
@@ -159,6 +183,7 @@ def run(ctx):
     ctx.do(rule_flattening_keeps_operator)
     ctx.do(rule_nodes_built_by_constructors)
     ctx.do(rule_printer_complete)
+    ctx.do(rule_observation_brackets)
     ctx.do(rule_definite_init)
     ctx.do(rule_escape_order)
     ctx.do(rule_step_quoting)
@@ -178,6 +203,8 @@ def run(ctx):
     ctx.do(_alias)
     from .hidden_state import rule_no_hidden_state
     ctx.do(rule_no_hidden_state, "C10.history-independence")
+    from .pitfalls import rule_loops_not_cut_short
+    ctx.do(rule_loops_not_cut_short, "C10.loops-complete")
 
 
 def grammar_dir():
@@ -312,6 +339,23 @@ def rule_not_aware(ctx):
                         uses_not = any("parser_class.NOT" in norm(x) for x in body_walk(m.node) if isinstance(x, ast.Compare))
                         if not uses_not:
                             problems.append("the operator is read from children[1], which is the NOT token when NOT is present")
+        # the right-hand side sits at position 3 when NOT is present (lhs NOT op rhs), else at 2: the index expression says so
+        for c in inst:
+            rhs = c.args[2] if len(c.args) > 2 else None
+            if not (isinstance(rhs, ast.Subscript) and cv and norm(rhs.value) == cv):
+                continue
+            idx = rhs.slice
+            okidx = False
+            if isinstance(idx, ast.Constant) and idx.value == -1:
+                okidx = True                          # the last child, whatever precedes it
+            if isinstance(idx, ast.IfExp) and isinstance(idx.body, ast.Constant) and isinstance(idx.orelse, ast.Constant):
+                t_ = norm(idx.test)
+                four = t_ in ("len(%s) > 3" % cv, "len(%s) == 4" % cv, "len(%s) >= 4" % cv, "3 < len(%s)" % cv) or "_is_negated" in t_ or any(
+                    isinstance(a_, ast.Assign) and norm(a_.targets[0]) == t_ and "_is_negated" in norm(a_.value) for a_ in body_walk(m.node))
+                three = t_ in ("len(%s) == 3" % cv, "len(%s) < 4" % cv, "len(%s) <= 3" % cv)
+                okidx = (four and idx.body.value == 3 and idx.orelse.value == 2) or (three and idx.body.value == 2 and idx.orelse.value == 3)
+            if not okidx:
+                problems.append("the right-hand side is read from %s[%s], which is not 'position 3 with NOT, position 2 without'" % (cv, norm(idx)))
         # NOT combined with a negating operator (!=) must cancel
         if rule == "PropTestEqual":
             t = norm(m.node)
